@@ -60,17 +60,34 @@ type Summary struct {
 var curLine atomic.Value
 
 func keysFor(name string) map[string]bool {
-	switch name {
-	case "std":
-		return proj.KeysStd
-	case "derived":
-		return proj.KeysDerived
-	case "all", "":
+	if name == "all" || name == "" {
 		return nil
 	}
 	m := map[string]bool{}
 	for _, k := range strings.Split(name, ",") {
-		m[k] = true
+		switch k {
+		case "std":
+			for x := range proj.KeysStd {
+				m[x] = true
+			}
+		case "derived":
+			for x := range proj.KeysDerived {
+				m[x] = true
+			}
+		case "shape": // everything C04 speaks about: the standard getters plus Href(true), Scheme, Query, Fragment, OpaquePath, IsSpecialScheme
+			for x := range proj.KeysStd {
+				m[x] = true
+			}
+			for _, x := range []string{"hrefnf", "scheme", "query", "fragment", "opaque", "special"} {
+				m[x] = true
+			}
+		default:
+			if !proj.KnownKey(k) {
+				fmt.Fprintln(os.Stderr, "unknown projection key", k)
+				os.Exit(2)
+			}
+			m[k] = true
+		}
 	}
 	return m
 }
@@ -87,6 +104,7 @@ func cmdReplay(args []string) int {
 	spmodes := fs.String("spmodes", "late,early", "SearchParams handle modes for histories")
 	params := fs.Bool("params", true, "compare parameter lists")
 	logf := fs.String("log", "", "file receiving TLC's own output lines")
+	reparse := fs.Bool("reparse", false, "parse lines: also re-parse the observed serialization and demand identity (C03)")
 	fs.Parse(args)
 
 	var lw *bufio.Writer
@@ -230,6 +248,11 @@ func cmdReplay(args []string) int {
 				if !fail {
 					if d := proj.Diff(*ln.G, got, kset); len(d) > 0 {
 						report(Mismatch{Family: *family, Entry: e, What: "getters", Keys: d, Exp: ln.G, Got: got, Line: json.RawMessage(inner)})
+					} else if *reparse {
+						rt, errc := interp.DoReparse(defaultP, &got)
+						if errc != "" || rt.Fail || !rt.Same {
+							report(Mismatch{Family: *family, Entry: e, What: "roundtrip", Keys: []string{"rt"}, Exp: got, Got: rt, Line: json.RawMessage(inner)})
+						}
 					}
 				}
 			}
@@ -337,6 +360,10 @@ func runHistory(family, mode string, ln *Line, kset map[string]bool, params bool
 				report(Mismatch{Family: family, Entry: mode, Step: i + 1, Handle: h, What: "liveness", Exp: e.Live, Got: o.Live, Line: raw})
 				return
 			}
+			if o.Live && o.Alias {
+				report(Mismatch{Family: family, Entry: mode, Step: i + 1, Handle: h, What: "alias: the handle's SearchParams object belongs to another URL", Line: raw})
+				return
+			}
 			if !e.Live || e.G == nil {
 				continue
 			}
@@ -348,20 +375,85 @@ func runHistory(family, mode string, ln *Line, kset map[string]bool, params bool
 				report(Mismatch{Family: family, Entry: mode, Step: i + 1, Handle: h, What: "params", Keys: []string{"params"}, Exp: e.P, Got: o.P, Line: raw})
 				return
 			}
+			if e.Law != nil && o.P != nil {
+				// the law on the real code: serialize the real list (it is the URL's query), parse it with the real parser
+				ok, skip := realListRoundTrip(m.U[h], o.P)
+				if !skip && ok != e.Law.Faithful {
+					report(Mismatch{Family: family, Entry: mode, Step: i + 1, Handle: h, What: "codec-law-prediction", Keys: []string{"law"}, Exp: e.Law, Got: ok, Line: raw})
+					return
+				}
+				if !skip && !ok {
+					report(Mismatch{Family: family, Entry: mode, Step: i + 1, Handle: h, What: "codec-law", Keys: []string{"law"}, Exp: e.Law, Got: ok, Line: raw})
+					// not fatal for the rest of the history
+				}
+			}
+			if e.RT != nil {
+				rt, errc := interp.DoReparse(defaultP, o.G)
+				bad := errc != "" || rt.Fail != e.RT.Fail || rt.Same != e.RT.Same
+				if !bad && !rt.Fail && !rt.Same && len(proj.Diff(*e.RT.G, *rt.G, nil)) > 0 {
+					bad = true
+				}
+				if bad {
+					report(Mismatch{Family: family, Entry: mode, Step: i + 1, Handle: h, What: "roundtrip", Keys: []string{"rt"}, Exp: e.RT, Got: rt, Line: raw})
+					return
+				}
+			}
 		}
 	}
 }
 
+// realListRoundTrip serializes u (its query is the list's serialization), parses it again with the real code and
+// compares the new URL's parameter list with the stored one.
+func realListRoundTrip(u *url.Url, stored [][]proj.Text) (ok, skip bool) {
+	defer func() {
+		if r := recover(); r != nil {
+			ok, skip = false, false
+		}
+	}()
+	// serialize the real list and parse the result as the query of a URL of the same scheme class
+	prefix := "x://h/?"
+	if u.IsSpecialScheme() {
+		prefix = "http://h/?"
+	}
+	u2, err := defaultP.Parse(prefix + u.SearchParams().String())
+	if err != nil || u2 == nil {
+		return false, false
+	}
+	sp2 := u2.SearchParams()
+	got := [][]proj.Text{}
+	for _, p := range sp2.VerifParams() {
+		got = append(got, []proj.Text{proj.FromGo(p[0]), proj.FromGo(p[1])})
+	}
+	return pairsEq(stored, got), false
+}
+
+// textsEq compares texts; a raw (invalid UTF-8) byte observed in a stored Go string counts as U+FFFD (C11).
 func textsEq(a, b []proj.Text) bool {
 	if len(a) != len(b) {
 		return false
 	}
 	for i := range a {
-		if !a[i].Eq(b[i]) {
+		if !norm(a[i]).Eq(norm(b[i])) {
 			return false
 		}
 	}
 	return true
+}
+
+func norm(t proj.Text) proj.Text {
+	for _, c := range t {
+		if c >= proj.RawBase {
+			o := make(proj.Text, len(t))
+			for i, c := range t {
+				if c >= proj.RawBase {
+					c = 0xFFFD
+				}
+				o[i] = c
+			}
+			return o
+		}
+	}
+	return t
 }
 
 func pairsEq(a, b [][]proj.Text) bool {
